@@ -296,26 +296,34 @@ def rule_values(r):
 
 
 def rule_stride(r):
+    """make_details: one selection S (by decreasing length, at most max_pd) drives par, length, offset; strides are the
+    exclusive cumulative product of the selected lengths; num_eval the total.  Read after inlining temporaries."""
     mod = pf.lib("details")
     fn = mod.func("make_details")
     f = "sasmodels/details.py"
-    def asg(name):
-        s = [x for x in pf.walk_stmts(fn) if isinstance(x, ast.Assign) and pf.unparse(x.targets[0]) == name]
-        return s[0] if s else None
-    idx = asg("idx")
-    r.check(idx is not None and pf.unparse(idx.value) == "np.argsort(length)[::-1][:max_pd]", f, "make_details",
-            pf.unparse(idx) if idx else "idx", idx.lineno if idx else 0, "loop slots by decreasing length")
-    ps = asg("pd_stride")
-    r.check(ps is not None and pf.unparse(ps.value) == "np.cumprod(np.hstack((1, length[idx])))", f, "make_details",
-            pf.unparse(ps) if ps else "pd_stride", ps.lineno if ps else 0, "exclusive cumulative product of the selected lengths")
-    want = {"call_details.pd_par[:max_pd]": "idx", "call_details.pd_length[:max_pd]": "length[idx]",
-            "call_details.pd_offset[:max_pd]": "offset[idx]", "call_details.pd_stride[:max_pd]": "pd_stride[:-1]",
-            "call_details.num_eval": "pd_stride[-1]", "call_details.num_weights": "num_weights",
-            "call_details.num_active": "num_active"}
-    for k, v in want.items():
-        s = asg(k)
-        r.check(s is not None and pf.unparse(s.value) == v, f, "make_details", "%s = %s" % (k, pf.unparse(s.value) if s else "?"),
-                s.lineno if s else 0, "same selection order for par, length, offset and stride" if "[" in k else "")
+    P = pf.positional_params(fn)
+    length, offset = P[1], P[2]
+    stores = {}
+    for x in pf.walk_stmts(fn):
+        if isinstance(x, ast.Assign) and pf.unparse(x.targets[0]).startswith("call_details."):
+            stores[pf.unparse(x.targets[0])] = (pf.inlined_text(fn, x.value), x)
+    mp = pf.inlined_text(fn, ast.Name("max_pd", ast.Load()))
+    sel = "np.argsort(%s)[::-1][:%s]" % (length, mp)
+    stride = "np.cumprod(np.hstack((1, %s[%s])))" % (length, sel)
+    want = {"call_details.pd_par[:max_pd]": (sel, "loop slots by decreasing length"),
+            "call_details.pd_length[:max_pd]": ("%s[%s]" % (length, sel), "lengths of the selected parameters"),
+            "call_details.pd_offset[:max_pd]": ("%s[%s]" % (offset, sel), "offsets of the selected parameters"),
+            "call_details.pd_stride[:max_pd]": (stride + "[:-1]", "exclusive cumulative product of the selected lengths"),
+            "call_details.num_eval": (stride + "[-1]", "mesh size = product of the selected lengths"),
+            "call_details.num_weights": (P[3], "total weight count"),
+            "call_details.num_active": ("np.sum(%s > 1)" % length, "number of real loops")}
+    for kx, (w, why) in want.items():
+        got = stores.get(kx)
+        r.check(got is not None and got[0] == pf.canon(w), f, "make_details", "%s = %s" % (kx, got[0] if got else "?"),
+                got[1].lineno if got else fn.lineno, why + ("" if got and got[0] == pf.canon(w) else " (expected %s)" % w))
+    for kx in ("call_details.length", "call_details.offset"):
+        got = stores.get(kx)
+        r.check(got is not None and got[0] in (length, offset), f, "make_details", "%s kept for composite models" % kx, got[1].lineno if got else 0)
 
 
 def rule_maxpd(r):
@@ -339,9 +347,6 @@ def rule_maxpd(r):
         t = pf.unparse(g.test)
         r.check(t in ("num_active > max_pd", "not num_active <= max_pd", "max_pd < num_active"), f, "make_details", "if %s: raise" % t,
                 g.lineno, "refusal compares the active count with the model's max_pd")
-    na = [s for s in cfg.stmts() if isinstance(s, ast.Assign) and pf.unparse(s.targets[0]) == "num_active"]
-    r.check(bool(na) and pf.unparse(na[0].value) == "np.sum(length > 1)", f, "make_details", pf.unparse(na[0]) if na else "num_active",
-            na[0].lineno if na else 0, "active = more than one point")
 
 
 def rule_chunk(r):
@@ -381,89 +386,55 @@ def rule_chunk(r):
 
 
 def rule_norm(r):
-    mod = pf.lib("kernel")
+    """Kernel.Fq / Kernel.Iq read by role: return tuple in terms of result slots and zero guards (names of locals are free)."""
+    from ..pyroles import kernel_fq
     f = "sasmodels/kernel.py"
-    fq = mod.func("Kernel.Fq")
+    k = kernel_fq()
+    fq, ret, guards = k["fn"], k["ret"], k["guards"]
+    R = lambda i: nf.sym("R%d" % i)
+    if len(ret) != 5:
+        raise AnalysisError("Kernel.Fq returns %d values" % len(ret))
+    # guard on the total weight: some guard symbol stands for slot 0
+    gw = [g for g, pre, st in guards if pre is not None and nf.equal(pre, R(0))]
+    r.check(bool(gw), f, "Kernel.Fq", "if <total weight> == 0: <total weight> = 1", guards[0][2].lineno if guards else fq.lineno,
+            "an empty mesh gives 0/1 = 0, hence the background" if gw else "no zero guard on result[nout*nq + 0]")
+    W = gw[0] if gw else R(0)
+    gs = [g for g, pre, st in guards if pre is not None and nf.equal(pre, R(2) / W)]
+    r.check(bool(gs), f, "Kernel.Fq", "if <shell volume> == 0: <shell volume> = 1", fq.lineno,
+            "no division by a zero volume" if gs else "no zero guard on result[nout*nq + 2]/total_weight")
+    V = gs[0] if gs else R(2) / W
+    want = [("<F> = result[1::nout]/W", nf.sym("RF1") / W), ("<F^2> = result[0::nout]/W", nf.sym("RF2") / W),
+            ("R_eff = result[nq_out+3]/W", R(3) / W), ("V_shell = result[nq_out+2]/W (guarded)", V),
+            ("V_form/V_shell = (result[nq_out+1]/W)/V_shell", R(1) / W / V)]
+    for i, (what, w) in enumerate(want):
+        r.check(nf.equal(ret[i], w), f, "Kernel.Fq", "return[%d]: %s" % (i, what), k["return"].lineno,
+                "found %s" % ret[i])
+    r.check(k["nout"] == "2 if self.info.have_Fq and self.dim == '1d' else 1", f, "Kernel.Fq", "nout = %s" % k["nout"], fq.lineno,
+            "interleaved F^2,F only for 1-D Fq kernels")
+    # every division by the guarded quantities happens after the guard (CFG)
     cfg = pf.cfg(fq)
-    R = lambda k: nf.sym("R%d" % k)
-    # symbolic environment: self.result[nout*nq + k] -> Rk ; slices -> RF2 / RF1
-    env = {}
-    funcs = {}
-    class T(ast.NodeTransformer):
-        def visit_Subscript(self, n):
-            self.generic_visit(n)
-            if pf.unparse(n.value) == "self.result":
-                s = pf.unparse(n.slice)
-                m = re.match(r"^nout \* self\.q_input\.nq \+ (\d)$", s)
-                if m:
-                    return ast.Name("R%s" % m.group(1), ast.Load())
-                if s == "0:nout * self.q_input.nq:nout":
-                    return ast.Name("RF2", ast.Load())
-                if s == "1:nout * self.q_input.nq:nout":
-                    return ast.Name("RF1", ast.Load())
-                return ast.Name("RX", ast.Load())
-            return n
-    import copy
-    body = [T().visit(copy.deepcopy(s)) for s in fq.body]
-    guards = {}
-    vals = {}
-    for s in body:
-        if isinstance(s, ast.Assign) and isinstance(s.targets[0], ast.Name):
-            v = s.value
-            if isinstance(v, ast.IfExp):
-                v = v.body
-            vals[s.targets[0].id] = nf.py_expr(v, {k: x for k, x in vals.items()})
-        if isinstance(s, ast.If) and isinstance(s.test, ast.Compare) and pf.const_value(s.test.comparators[0]) == 0 \
-                and isinstance(s.test.ops[0], ast.Eq):
-            nm = pf.unparse(s.test.left)
-            if s.body and isinstance(s.body[0], ast.Assign) and pf.unparse(s.body[0].targets[0]) == nm and pf.const_value(s.body[0].value) == 1:
-                guards[nm] = s
-    W = nf.sym("total_weight")
-    # re-evaluate with total_weight kept symbolic after its guard
-    vals2 = {"total_weight": W}
-    for s in body:
-        if isinstance(s, ast.Assign) and isinstance(s.targets[0], ast.Name) and s.targets[0].id != "total_weight":
-            v = s.value.body if isinstance(s.value, ast.IfExp) else s.value
-            vals2[s.targets[0].id] = nf.py_expr(v, dict(vals2))
-    r.check(nf.equal(vals["total_weight"], nf.sym("R0")), f, "Kernel.Fq", "total_weight = result[nout*nq + 0]", fq.lineno)
-    r.check(nf.equal(vals2["form_volume"], nf.sym("R1") / W), f, "Kernel.Fq", "form_volume = result[nout*nq + 1]/total_weight", fq.lineno)
-    r.check(nf.equal(vals2["shell_volume"], nf.sym("R2") / W), f, "Kernel.Fq", "shell_volume = result[nout*nq + 2]/total_weight", fq.lineno)
-    r.check(nf.equal(vals2["radius_effective"], nf.sym("R3") / W), f, "Kernel.Fq", "radius_effective = result[nout*nq + 3]/total_weight", fq.lineno)
-    r.check(nf.equal(vals2["F2"], nf.sym("RF2") / W), f, "Kernel.Fq", "F2 = result[0:nout*nq:nout]/total_weight", fq.lineno,
-            "<F^2> is the weight-normalised sum")
-    r.check(nf.equal(vals2["F1"], nf.sym("RF1") / W), f, "Kernel.Fq", "F1 = result[1:nout*nq:nout]/total_weight", fq.lineno)
-    for nm in ("total_weight", "shell_volume"):
-        g = guards.get(nm)
-        r.check(g is not None, f, "Kernel.Fq", "if %s == 0: %s = 1" % (nm, nm), g.lineno if g else fq.lineno,
-                "an empty mesh gives 0/1 = 0, hence the background" if nm == "total_weight" else "no division by zero volume")
-    # every division by total_weight is dominated by its guard (CFG on the original function)
-    gw = [s for s in cfg.stmts() if isinstance(s, ast.If) and pf.unparse(s.test) in ("total_weight == 0.0", "total_weight == 0")]
-    divs = [s for s in cfg.stmts() if isinstance(s, ast.Assign) and any(
-        isinstance(n, ast.BinOp) and isinstance(n.op, ast.Div) and pf.unparse(n.right) == "total_weight" for n in ast.walk(s.value))]
-    for d in divs:
-        r.check(bool(gw) and cfg.dominates(gw[0], d), f, "Kernel.Fq", pf.unparse(d)[:70], d.lineno, "division follows the zero guard")
-    ret = [s for s in fq.body if isinstance(s, ast.Return)][0]
-    r.check(pf.unparse(ret.value) == "(F1, F2, radius_effective, shell_volume, form_volume / shell_volume)", f, "Kernel.Fq",
-            "return %s" % pf.unparse(ret.value), ret.lineno, "<F>, <F^2>, R_eff, V_shell, V_form/V_shell")
-    gs = [s for s in cfg.stmts() if isinstance(s, ast.If) and pf.unparse(s.test) in ("shell_volume == 0.0", "shell_volume == 0")]
-    r.check(bool(gs) and cfg.dominates(gs[0], ret), f, "Kernel.Fq", "shell_volume guard precedes form_volume/shell_volume", ret.lineno)
-    nout = [s for s in fq.body if isinstance(s, ast.Assign) and pf.unparse(s.targets[0]) == "nout"]
-    r.check(bool(nout) and pf.unparse(nout[0].value) == "2 if self.info.have_Fq and self.dim == '1d' else 1", f, "Kernel.Fq",
-            pf.unparse(nout[0]) if nout else "nout", nout[0].lineno if nout else 0, "interleaved F^2,F only for 1-D Fq kernels")
-    # Iq
+    for g, pre, st in guards:
+        name = pf.unparse(st.test.left)
+        divs = [s for s in cfg.stmts() if isinstance(s, (ast.Assign, ast.Return)) and s.value is not None and any(
+            isinstance(n, ast.BinOp) and isinstance(n.op, ast.Div) and pf.unparse(n.right) == name for n in ast.walk(s.value))]
+        for d in divs:
+            r.check(cfg.dominates(st, d), f, "Kernel.Fq", "division by %s in `%s` follows its zero guard" % (name, pf.unparse(d)[:50]), d.lineno)
+    # Iq: scale * F2 / shell_volume + background, F2 and shell_volume being the 2nd and 4th value of Fq
+    mod = pf.lib("kernel")
     iq = mod.func("Kernel.Iq")
     call = [s for s in iq.body if isinstance(s, ast.Assign) and isinstance(s.value, ast.Call) and pf.call_name(s.value) == "self.Fq"]
-    ok = bool(call) and pf.unparse(call[0].targets[0]) == "(_, F2, _, shell_volume, _)"
-    r.check(ok, f, "Kernel.Iq", pf.unparse(call[0])[:90] if call else "self.Fq(...)", call[0].lineno if call else 0,
-            "F2 is the 2nd and shell_volume the 4th element Fq returns")
-    env = nf.straightline_env([s for s in iq.body if isinstance(s, ast.Assign) and not isinstance(s.value, ast.Call)],
-                              {"values[0]": nf.sym("scale"), "values[1]": nf.sym("background")})
+    if not call or not isinstance(call[0].targets[0], ast.Tuple) or len(call[0].targets[0].elts) != 5:
+        raise AnalysisError("Kernel.Iq: unpacking of self.Fq(...) not found")
+    names = [pf.unparse(e) for e in call[0].targets[0].elts]
+    env = {names[1]: nf.sym("F2"), names[3]: nf.sym("V_shell"), "values[0]": nf.sym("scale"), "values[1]": nf.sym("background")}
+    env = nf.straightline_env([s for s in iq.body if isinstance(s, ast.Assign) and not isinstance(s.value, ast.Call)], env)
     rt = [s for s in iq.body if isinstance(s, ast.Return)][0]
     e = nf.py_expr(rt.value, env)
-    want = nf.sym("scale") * nf.sym("F2") / nf.sym("shell_volume") + nf.sym("background")
-    r.check(nf.equal(e, want), f, "Kernel.Iq", "return %s" % pf.unparse(rt.value), rt.lineno,
-            "I = scale * <F^2> / <V_shell> + background (found %s)" % e)
-    r.check(any(k.arg == "radius_effective_mode" and pf.const_value(k.value) == 0 for k in call[0].value.keywords) if call else False,
+    wantI = nf.sym("scale") * nf.sym("F2") / nf.sym("V_shell") + nf.sym("background")
+    r.check(nf.equal(e, wantI), f, "Kernel.Iq", "return %s" % pf.unparse(rt.value), rt.lineno,
+            "I = scale * <F^2> / <V_shell> + background with the 2nd and 4th value of Fq (found %s)" % e)
+    r.check(any(kw.arg == "radius_effective_mode" and pf.const_value(kw.value) == 0 for kw in call[0].value.keywords) or
+            (len(call[0].value.args) > 4 and pf.const_value(call[0].value.args[4]) == 0),
             f, "Kernel.Iq", "Fq(..., radius_effective_mode=0)", iq.lineno)
 
 
@@ -501,9 +472,9 @@ RULES = [
     ("R-C01-struct", 52, "ProblemDetails layout = CallDetails.buffer views", rule_struct),
     ("R-C01-values", 9, "value vector layout and NUM_VALUES", rule_values),
     ("R-C01-stride", 9, "stride/selection construction", rule_stride),
-    ("R-C01-maxpd", 3, "max_pd refusal dominates truncation", rule_maxpd),
+    ("R-C01-maxpd", 2, "max_pd refusal dominates truncation", rule_maxpd),
     ("R-C01-chunk", 12, "chunks tile [0, num_eval) in three drivers", rule_chunk),
-    ("R-C01-norm", 16, "normalisation formula and zero guards", rule_norm),
+    ("R-C01-norm", 12, "normalisation formula and zero guards", rule_norm),
     ("R-C01-single-point", 2, "truncated distributions keep their points", rule_single_point),
 ]
 
